@@ -129,53 +129,84 @@ def _prefix_alternatives(e, lets, depth=0):
 
 
 def radix_sites(F):
-    """every `from_str_radix` call in Imm::from_str with the (prefix, radix) pairs under which it runs -> (fn, [(call, [(prefix, radix)], problem)])"""
+    """every `from_str_radix` call in Imm::from_str - and in the private helpers of Imm it calls - with the (prefix, radix) pairs under which it runs -> (fn, [(call, [(prefix, radix)], problem)])"""
     p = F.method(P + "imm::Imm", "from_str", trait="core::str::traits::FromStr")
     f = F.fn(p)
-    body = f["hir"]["value"]
     from .p_parse import parent_map
-    pm = parent_map(body)
-    lets = {}
-    for st in walk(body, pats=False):
-        if st.get("k") == "Let" and st["pat"].get("k") == "PBinding" and st.get("init") is not None:
-            lets.setdefault(st["pat"]["name"], st)
-    out = []
-    for m in walk(body, pats=False):
-        if m.get("k") != "Call" or short(callee_of(m) or "") != "from_str_radix":
-            continue
-        rad = peel(m["args"][1])
-        # enclosing `if let <pat> = <init>` tests, innermost first
-        tests = []
-        x = m
-        while id(x) in pm:
-            par = pm[id(x)]
-            if par.get("k") == "If" and any(y is x for y in [par.get("then")]):
-                c = par["cond"]
-                while c.get("k") in ("DropTemps", "Use"):
-                    c = c["e"]
-                if c.get("k") == "LetExpr":
-                    tests.append(c)
-            x = par
-        alts, prob = None, None
-        lv = lit_value(rad)
-        for c in tests:
-            init = peel(c["init"])
-            if isinstance(lv, int) and init.get("k") == "MethodCall" and init["name"] == "strip_prefix" and init["args"]:
-                alts = [(lit_value(init["args"][0]), lv)]
-                break
-            if rad.get("k") == "Path" and rad.get("res_kind") == "Local":
-                # the radix is bound by this pattern: `Some((digits, radix))`
-                tups = [t_ for t_ in walk(c["pat"]) if t_.get("k") == "PTuple"]
-                bound = [b["name"] for b in walk(c["pat"]) if b.get("k") == "PBinding"]
-                if rad["res"] in bound and tups and len(tups[0].get("pats", [])) == 2 and any(b.get("k") == "PBinding" and b["name"] == rad["res"] for b in walk(tups[0]["pats"][1])):
-                    try:
-                        alts = [(a, b) for a, b, _ in _prefix_alternatives(c["init"], lets)]
-                    except RadixUnx as ex:
-                        prob = str(ex)
-                    break
-        out.append((m, alts, prob))
-    return f, out
+    from .p_c06 import _imm_fns
 
+    def sites_in(g, bind=None, depth=0):
+        """bind: {param name: [(prefix, radix)]} for a helper whose radix is a parameter"""
+        body = g["hir"]["value"]
+        pm = parent_map(body)
+        lets = {}
+        for st in walk(body, pats=False):
+            if st.get("k") == "Let" and st["pat"].get("k") == "PBinding" and st.get("init") is not None:
+                lets.setdefault(st["pat"]["name"], st)
+        out = []
+
+        def enclosing_tests(node):
+            tests, x = [], node
+            while id(x) in pm:
+                par = pm[id(x)]
+                if par.get("k") == "If" and par.get("then") is x:
+                    c = par["cond"]
+                    while c.get("k") in ("DropTemps", "Use"):
+                        c = c["e"]
+                    if c.get("k") == "LetExpr":
+                        tests.append(c)
+                x = par
+            return tests
+
+        def alts_for(rad, tests):
+            """the (prefix, radix) pairs for a radix expression under the given `if let` tests"""
+            lv = lit_value(rad)
+            for c in tests:
+                init = peel(c["init"])
+                if isinstance(lv, int) and init.get("k") == "MethodCall" and init["name"] == "strip_prefix" and init["args"]:
+                    return [(lit_value(init["args"][0]), lv)], None
+                if rad.get("k") == "Path" and rad.get("res_kind") == "Local":
+                    tups = [t_ for t_ in walk(c["pat"]) if t_.get("k") == "PTuple"]
+                    bound = [b["name"] for b in walk(c["pat"]) if b.get("k") == "PBinding"]
+                    if rad["res"] in bound and tups and len(tups[0].get("pats", [])) == 2 and any(b.get("k") == "PBinding" and b["name"] == rad["res"] for b in walk(tups[0]["pats"][1])):
+                        try:
+                            return [(a, b) for a, b, _ in _prefix_alternatives(c["init"], lets)], None
+                        except RadixUnx as ex:
+                            return None, str(ex)
+            return None, None
+        for m in walk(body, pats=False):
+            if m.get("k") != "Call":
+                continue
+            cal = callee_of(m) or ""
+            if short(cal) == "from_str_radix":
+                rad = peel(m["args"][1])
+                if bind is not None and rad.get("k") == "Path" and rad.get("res_kind") == "Local" and rad["res"] in bind:
+                    out.append((m, bind[rad["res"]], None))
+                    continue
+                alts, prob = alts_for(rad, enclosing_tests(m))
+                out.append((m, alts, prob))
+            elif depth < 2 and cal in helpers and cal != g["path"]:
+                # a private helper of Imm: its parameters take the radix (and the digits) of this call site
+                h = F.fn(cal)
+                pn = [p_.get("name") for p_ in h["hir"]["params"]]
+                b2 = {}
+                for i_, a_ in enumerate(m["args"]):
+                    if i_ < len(pn) and pn[i_] and isinstance(lit_value(a_), int) and not isinstance(lit_value(a_), bool):
+                        alts, prob = alts_for(peel(a_), enclosing_tests(m))
+                        if alts:
+                            b2[pn[i_]] = alts
+                if b2:
+                    pending.setdefault(cal, {})
+                    for k_, v_ in b2.items():
+                        pending[cal].setdefault(k_, [])
+                        pending[cal][k_] += [x for x in v_ if x not in pending[cal][k_]]
+        return out
+    helpers = {q for q in _imm_fns(F) if q.startswith(P + "imm::Imm::") and q != p}
+    pending = {}
+    res = sites_in(f)
+    for cal, b2 in sorted(pending.items()):
+        res += sites_in(F.fn(cal), bind=b2, depth=1)
+    return f, res
 
 
 @rule("C13", "C13.e.radix-table", floor=3)
@@ -308,6 +339,8 @@ def c13k(F, R):
     """source text is turned into a number in exactly one place, `Imm::from_str` (sign, `0x`, `0b`, decimal): every other reader of a numeric operand - a CSR number, a data value - goes through it, so that all notations are accepted wherever a number is; a second hand-written reader (`from_str_radix` / `str::parse::<int>` elsewhere in the parser) knows fewer notations and the same program written with `0b..` is read differently"""
     home = F.method(P + "imm::Imm", "from_str", trait="core::str::traits::FromStr")
     home_alts = {id(m): alts for m, alts, _ in radix_sites(F)[1]}
+    from .p_c06 import _imm_fns
+    home_helpers = {q_ for q_ in _imm_fns(F) if q_.startswith(P + "imm::Imm::") and q_ != home}   # private helpers of Imm that from_str calls
     n_home = 0
     for q, g in sorted(F.fns.items()):
         if "mir" not in g and "hir" not in g:
@@ -326,7 +359,7 @@ def c13k(F, R):
             if not isint:
                 continue
             root = q.split("::{closure")[0]
-            if root == home:
+            if root == home or root in home_helpers:
                 k_ = max(1, len(home_alts.get(id(c)) or []))
                 for _ in range(k_):
                     n_home += 1
